@@ -26,6 +26,41 @@ var decided = map[string][]string{
 		"SimplifyPaths64/D: path by path",
 		"PerpendicDistFromLineSqr64 == cross^2/|line|^2, no overflow on the 2^29 domain; translation invariance and s^2 scaling of that value (lemmas)",
 	},
+	"C01": {
+		"contribution rule: isContributingClosed == (membership of the requested boolean combination differs across the edge), all clip types x fill rules x path types x windings",
+		"winding hand-over in setWindCountForClosedPathEdge (all branches) and edge-by-edge accumulation of the other type's winding",
+		"winding transfer across an intersection in intersectEdges (same type, other type, EvenOdd and non-EvenOdd)",
+		"integer primitives on the 2^29 domain: CrossProduct, dotProduct64, isCollinear, getSegmentIntersectPt (parallel test, box), getDx",
+	},
+	"C19": {
+		"the boolean table satisfies the set identities pointwise (disjoint decomposition of Union, Xor = Union minus Intersection, Difference = subject minus Intersection, [U]+[I] = [s]+[c])",
+		"contribution rule shared with C01",
+		"UnionPaths64 / UnionWithClip / IntersectWithClip / DifferenceWithClip / XorWithClip wrappers pass the right clip type; UnionPaths64 uses a nil clip",
+	},
+	"C09": {
+		"isContributingOpen is the property's sentence verbatim (per clip type, fill rule applied to windings)",
+		"setWindCountForOpenPathEdge counts exactly the closed subject edges / clip edges to the left, edge by edge",
+	},
+	"C07": {
+		"ScalePathDToPath64 / ScalePath64ToPathD / Paths variants: element-wise quantisation and scaling",
+		"precision-range panic exactly when documented: checkPrecision, NewClipperD, TrimCollinearD, MinkowskiSumD/DiffD, RectClipPathsD, RectClipLinesPathsD",
+		"TrimCollinearD, MinkowskiSumD/DiffD, RectClipPathsD, RectClipLinesPathsD == unscale o 64-bit operation o scale",
+		"NewClipperD wires scale = 10^p and invScale = 1/scale",
+	},
+	"C08": {
+		"minkowskiInternal: exact quad count, every quad is the parallelogram of a (path edge, pattern edge) pair built from path[i] +/- pattern[j], index/capacity/overflow safety",
+		"ReversePath; MinkowskiSum64/Diff64 == UnionPaths64(minkowskiInternal(...), NonZero)",
+	},
+	"C13": {
+		"translation invariance and s^2 scaling of cross/dot products and perpendicular distance (lemmas)",
+		"productsAreEqual / isCollinear exact up to 2^61 when no factor equals 1",
+		"CrossProduct overflow-free and sign-exact up to 2^30; getDx; checkCastInt64",
+	},
+	"C03": {
+		"panic-freedom (index, slice bounds, nil dereference, division by zero, make size, explicit panic) of the functions listed under functions_under_contract, for all inputs satisfying the stated preconditions",
+		"termination where a decreases clause is listed (getNext, getPrior, TrimCollinear64 loops, PointInPolygon inner loops, ReversePath, minkowskiInternal, reset)",
+		"documented precision panic happens exactly when the precision is out of range",
+	},
 	"C12": {
 		"every public Execute* entry point re-establishes the idle state; constructors start idle; reset() re-initialises the per-run scratch fields",
 		"succeeded, fillRule, clipType, currentBotY, currentLocMin, sel, usingPolyTree are written before read in every entry point's call tree",
@@ -48,6 +83,13 @@ var undecided = map[string][]string{
 	"C14": {"PointInPolygon: the three-way classification for arbitrary polygons (bounded stand-in only)", "Area64 when the exact sum leaves int64 (known finding F16 region)"},
 	"C15": {"closed paths beyond the bound: sub-sequence in order, area unchanged, no collinear triple left, idempotence (bounded stand-in only)"},
 	"C16": {"exit condition and termination of the main loop beyond the bound (bounded stand-in only)", "epsilon 0 area preservation beyond the bound"},
+	"C01": {"the region statement itself: composition of the lemmas through the sweep (AEL order, intersection schedule, joins, horizontals, cleanCollinear / fixSelfIntersects / doSplitOp)"},
+	"C19": {"the area inequalities (need the region statement of C01)"},
+	"C09": {"coverage of the subject lines, cutting at intersections (open/closed branch of intersectEdges), open ends at maxima and horizontals, emission"},
+	"C07": {"BooleanOpPathsD / PolyTreeD / InflatePathsD composition with their 64-bit counterparts (heap-level engines)", "ScaleRectD rounding (known finding F8)", "NewClipperD(0) (known finding F17)"},
+	"C08": {"the NonZero union of the quads (C01) and commutativity of the resulting region"},
+	"C13": {"region-level translation/scaling invariance of whole operations", "advertised range 2^61 for CrossProduct, dotProduct64, getSegmentIntersectPt (known finding F13)"},
+	"C03": {"termination and nil-safety of the sweep's list walks, Execute's success flag, rectangle-clip state machine, offset join constructors (not under contract)"},
 	"C12": {"equality of results when the same paths are added in another order or split over several AddPaths calls (depends on the sweep's handling of equal-Y local minima)"},
 	"C17": {"all region-equality clauses: permutation of paths, start-vertex rotation, duplicated vertices, reversal, subject/clip exchange, the 8 lattice symmetries (relational properties of the sweep)"},
 	"C18": {"interleavings are not explored: the argument is the frame condition, under the assumption that the Go runtime and imported packages keep no racy shared state"},
